@@ -73,6 +73,28 @@ class NP:
             return out
         return _np.isnan(a)
 
+    def isclose(self, a, b, rtol=1e-05, atol=1e-08, equal_nan=False):
+        """numpy's definition |a - b| <= atol + rtol*|b|, elementwise; symbolic elements give symbolic truth values"""
+        if not (has_sym(_np.asarray(a, dtype=object)) or has_sym(_np.asarray(b, dtype=object))):
+            return _np.isclose(_np.asarray(a, dtype=float), _np.asarray(b, dtype=float), rtol=rtol, atol=atol, equal_nan=equal_nan)
+        a, b = _np.broadcast_arrays(_np.asarray(a, dtype=object), _np.asarray(b, dtype=object))
+        out = _np.empty(a.shape, dtype=object)
+        for idx in _np.ndindex(a.shape):
+            out[idx] = abs(a[idx] - b[idx]) <= atol + rtol * abs(b[idx])
+        return out if out.shape else out[()]
+
+    def allclose(self, a, b, rtol=1e-05, atol=1e-08, equal_nan=False):
+        if _np.shape(a) != _np.shape(b):
+            try:
+                _np.broadcast_shapes(_np.shape(a), _np.shape(b))
+            except ValueError:
+                return _np.allclose(_np.zeros(_np.shape(a)), _np.zeros(_np.shape(b)))     # numpy's own error for incompatible shapes
+        r = self.isclose(a, b, rtol=rtol, atol=atol, equal_nan=equal_nan)
+        for v in _np.asarray(r, dtype=object).reshape(-1):
+            if not bool(v):           # symbolic truth values are decided by the path oracle, first difference ends the scan
+                return False
+        return True
+
     def minimum(self, a, b):
         return self._elt(a, b, sym_min)
 
@@ -313,12 +335,33 @@ class SP:
         return M.of(_np.eye(n, m))
     identity = eye
 
-    def diags(self, d, k=0, **kw):
-        d = _np.asarray(d, dtype=object)
-        n = len(d)
-        m = M.of((n, n))
-        for i in range(n):
-            m.a[i, i] = d[i]
+    def diags(self, diagonals, offsets=0, shape=None, **kw):
+        """scipy.sparse.diags: one diagonal (sequence, offset) or several (list of sequences / scalars, list of offsets)"""
+        several = not _np.isscalar(offsets)
+        if not several:
+            diagonals, offsets = [diagonals], [offsets]
+        offsets = [int(o) for o in offsets]
+        if len(diagonals) != len(offsets):
+            raise ValueError('Different number of diagonals and offsets.')
+        diagonals = [d if (_np.isscalar(d) or isinstance(d, Sym)) else _np.asarray(d, dtype=object) for d in diagonals]
+        if shape is None:
+            first = diagonals[0]
+            if _np.isscalar(first) or isinstance(first, Sym):
+                raise ValueError('shape must be given for scalar diagonals')
+            n = len(first) + builtins.abs(offsets[0])
+            shape = (n, n)
+        rows, cols = int(shape[0]), int(shape[1])
+        m = M.of((rows, cols))
+        for d, k in zip(diagonals, offsets):
+            length = builtins.max(0, builtins.min(rows + builtins.min(k, 0), cols - builtins.max(k, 0)))
+            scalar = _np.isscalar(d) or isinstance(d, Sym)
+            if not scalar and len(d) == 1 and length != 1:
+                d, scalar = d[0], True
+            if not scalar and len(d) != length:
+                raise ValueError('Diagonal length (index %d: %d at offset %d) does not agree with array size (%d, %d).' % (0, len(d), k, rows, cols))
+            for i in range(length):
+                r, c = (i, i + k) if k >= 0 else (i - k, i)
+                m.a[r, c] = m.a[r, c] + (d if scalar else d[i])
         return m
 
     def hstack(self, blocks, **kw):
